@@ -421,3 +421,39 @@ REGISTRY_ATN = ActiveTrailNodes()
 register(REGISTRY_ATN)
 for _c in (GetMarkovBlanket(), BNGetMarkovBlanket(), Moralize(), IsDConnected(), GetAncestralGraph()):
     register(_c)
+
+
+class LocalIndependencies(Contract):
+    """local Markov property: v _|_ (non-descendants - parents) | parents, asserted exactly when that set is non-empty"""
+    file = "pgmpy/base/DAG.py"
+    qual = "DAG.local_independencies"
+
+    def variants(self, ex):
+        yield "variables=single", {"self": new_graph("DAG", "g"), "variables": atom("v", "str")}, {}
+
+    def pre(self, ex, st, args):
+        return z3.And(wf_graph(args["self"]), N_(args["self"], args["variables"].z))
+
+    def snapshot(self, ex, st, args):
+        return graph_snapshot(args["self"])
+
+    def post(self, ex, st, args, old, result):
+        from vf.pyvc.engine import Obj
+        from vf.pyvc.lib import IA, ia_fields
+        if not isinstance(result, Obj) or "independencies" not in result.fields:
+            return z3.BoolVal(False)
+        lst = result.fields["independencies"]
+        mem = lst.mem if lst.mem is not None else empty_set(IA)
+        E, Nn, v = old["_E"], old["_nodes"], args["variables"].z
+        P = ex.lib.theory(ex).path(E)
+        x, r = fresh("x", Atom), fresh("r", IA)
+        nd_minus_pa = lambda y: z3.And(Nn[y], y != v, z3.Not(P(v, y)), z3.Not(E[y, v]))
+        r1, r2, r3 = ia_fields(r)
+        is_local = z3.And(z3.ForAll([x], r1[x] == (x == v)), z3.ForAll([x], r2[x] == nd_minus_pa(x)), z3.ForAll([x], r3[x] == E[x, v]))
+        return {"only-the-local-assertion": z3.ForAll([r], z3.Implies(mem[r], is_local)),
+                "asserted-iff-nonempty": (z3.BoolVal(len(lst.items) > 0) if lst.items is not None else z3.Exists([r], mem[r]))
+                                         == z3.Exists([x], nd_minus_pa(x)),
+                "frame": graph_unchanged(args["self"], old)}
+
+
+register(LocalIndependencies())
